@@ -214,7 +214,19 @@ class SyncInterpreter(BaseInterpreter[TContext, TEvent]):
         # 📬 Drain anything an entry action raised during that descent.
         self._process_event_queue()
         # 🔄 Process any immediate "always" transitions upon startup.
-        self._process_transient_transitions()
+        #
+        # 🛡️ Behind the same re-entrancy guard as the initial entry: an action
+        #    on an eventless transition may `raise`, and outside the guard
+        #    `send()` processed that event on the spot - in the middle of the
+        #    transition that raised it, against a half-exited configuration,
+        #    where its handler was not active yet and the event was lost.
+        self._is_processing = True
+        try:
+            self._process_transient_transitions()
+        finally:
+            self._is_processing = False
+        # 📬 Drain what the eventless transitions raised.
+        self._process_event_queue()
 
         # Capture the post-transition state set after initialization
         post_states = set(self._active_state_nodes)
